@@ -64,6 +64,8 @@ def _parse_cached(path: str):
 #   * a `pass` statement next to other statements                   ->  dropped
 #   * `not (not C)` in a truth-value position (if/while/assert/conditional-expression test,
 #     operand of not/and/or)                                        ->  `C`
+#   * `x = x + E` / `self.a = self.a - E` (same place on both sides, + - *)  ->  `x += E` (rules treat an
+#     augmented assignment as a read and a store of the place, which is what both spellings are)
 # Node positions of what remains are untouched, so reports still name the real lines.
 
 _STMT_LISTS = ("body", "orelse", "finalbody")
@@ -125,9 +127,39 @@ def _canon_stmts(stmts: List[ast.stmt], uses: Optional[Dict[str, int]]) -> List[
             out.append(ast.copy_location(ast.Return(value=s.value), nxt))
             i += 2
             continue
+        if isinstance(s, ast.Assign) and len(s.targets) == 1 and isinstance(s.targets[0], (ast.Name, ast.Attribute)) \
+                and isinstance(s.value, ast.BinOp) and isinstance(s.value.op, (ast.Add, ast.Sub, ast.Mult)) \
+                and _same_place(s.targets[0], s.value.left):
+            s = ast.copy_location(ast.AugAssign(target=s.targets[0], op=s.value.op, value=s.value.right), s)
         out.append(s)
         i += 1
     return out
+
+
+def aug_value(aug: ast.AugAssign) -> ast.BinOp:
+    """The value an augmented assignment stores, as an expression: `T op= E` stores `T op E`.
+    One synthetic node per statement (cached on it), positioned at the statement."""
+    v = getattr(aug, "_sa_value", None)
+    if v is None:
+        import copy
+        left = copy.deepcopy(aug.target)
+        for x in ast.walk(left):
+            if hasattr(x, "ctx"):
+                x.ctx = ast.Load()
+        v = ast.copy_location(ast.BinOp(left=left, op=aug.op, right=aug.value), aug)
+        ast.fix_missing_locations(v)
+        aug._sa_value = v
+    return v
+
+
+def _same_place(target: ast.AST, expr: ast.AST) -> bool:
+    """`target` (Store) and `expr` (Load) name the same variable / attribute of a plain name."""
+    if isinstance(target, ast.Name):
+        return isinstance(expr, ast.Name) and expr.id == target.id
+    if isinstance(target, ast.Attribute):
+        return isinstance(expr, ast.Attribute) and expr.attr == target.attr and isinstance(target.value, ast.Name) \
+            and isinstance(expr.value, ast.Name) and expr.value.id == target.value.id
+    return False
 
 
 def _canon_node(node: ast.AST, uses: Optional[Dict[str, int]]):
